@@ -113,7 +113,9 @@ Definition check_cmd (i:cmd_in) (o:cres) : bool :=
 
 (* ---------- exact correspondence ---------- *)
 Definition corr_cmd (i:cmd_in) (o:cres) : bool := cres_eqb (run_command i) o.
-Definition inclass_cmd (i:cmd_in) : bool := cmd_pre i.
+(* the comparison is exact on EVERY input (also where the statement has nothing to say: an oracle that does not fit,
+   a version table outside the domain): a disagreement anywhere is a broken tie *)
+Definition inclass_cmd (i:cmd_in) : bool := true.
 
 (* ---------- sequences of typed commands on one database ---------- *)
 (* one case = the commands of a session, each with the rows it found and what was observed of it; the rows a command
@@ -127,7 +129,7 @@ Fixpoint chained (l:list (cmd_in * cres)) : bool :=
 Definition corr_cmds (l:list (cmd_in * cres)) (_:unit) : bool := forallb (fun p => corr_cmd (fst p) (snd p)) l.
 Definition check_cmds (l:list (cmd_in * cres)) (_:unit) : bool :=
   chained l && forallb (fun p => check_cmd (fst p) (snd p)) l.
-Definition inclass_cmds (l:list (cmd_in * cres)) : bool := forallb (fun p => cmd_pre (fst p)) l.
+Definition inclass_cmds (l:list (cmd_in * cres)) : bool := true.
 Definition Cmds_hold (l:list (cmd_in * cres)) : Prop := Forall (fun p => Cmd_holds (fst p) (snd p)) l.
 
 (* the model run as a session: every command finds the rows the previous one left *)
